@@ -82,8 +82,51 @@ def run(ctx):
                               f"outcome {cut['res']} same_model={cut['same']}", {"kind": "kytea", "case": d, "cut": cut["cut"]},
                               cls=f"C17:cut:{cut['res']}")
     ctx.add_part(kytea_files=len(send), prefixes_tried=ncuts, failing=bad, shipped_sample_consumed=obs[len(cases)].get("consumed"))
+    tool(ctx, binp, send, obs, cases)
     ctx.sample({"abstract_kytea_model": cases[len(cases) // 2]["km"], "expected_converted": cases[len(cases) // 2]["expect"]})
     ctx.exhaustive = True
+
+
+def tool(ctx, binp, send, obs, cases):
+    """convert_kytea_model (the CLI) must write exactly the model the library conversion gives (Trace_Pair), and must fail
+    cleanly (non-zero exit, no panic, no output) on truncated files."""
+    import subprocess
+    cli = vlib.build_cli()
+    exe = os.path.join(cli, "convert_kytea_model")
+    wd = os.path.join(vlib.WORK, "kytea")
+    events = []
+    pick = [d for d in send if d["id"] % (7 if ctx.quick else 2) == 0][: (40 if ctx.quick else 400)]
+    for d in pick:
+        o = obs[d["id"]]
+        if o.get("res") != "ok" or not o.get("model"):
+            continue
+        outz = os.path.join(wd, f"conv{d['id']}.zst")
+        for pth in (outz, outz + ".raw"):
+            if os.path.exists(pth):
+                os.remove(pth)
+        p = subprocess.run([exe, "--model-in", d["path"], "--model-out", outz], stdout=subprocess.PIPE, stderr=subprocess.PIPE, env=vlib.cargo_env(), timeout=60)
+        got = None
+        if p.returncode == 0 and os.path.exists(outz):
+            vlib.run_harness(binp, ["unzstd", outz, outz + ".raw"], name="unzstd")
+            got = json.loads(vlib.run_harness(binp, ["decode", outz + ".raw"], name="decode"))
+        events.append({"id": d["id"], "ev": "pair", "ok": p.returncode == 0 and got is not None, "a": canon(o["model"]), "b": canon(got) if got else {}})
+        ctx.evaluations += 1
+        # truncated input: the middle of the file
+        data = open(d["path"], "rb").read()
+        cut = os.path.join(wd, f"cut{d['id']}.bin")
+        open(cut, "wb").write(data[: max(1, int(o["consumed"]) // 2)])
+        if os.path.exists(outz):
+            os.remove(outz)
+        p2 = subprocess.run([exe, "--model-in", cut, "--model-out", outz], stdout=subprocess.PIPE, stderr=subprocess.PIPE, env=vlib.cargo_env(), timeout=60)
+        ctx.evaluations += 1
+        if p2.returncode == 0 or p2.returncode == 101 or p2.returncode < 0 or os.path.exists(outz):
+            ctx.violation(f"C17:tool:truncated:{d['id']}", f"convert_kytea_model on a truncated file: exit {p2.returncode}, output written: {os.path.exists(outz)}; "
+                          f"stderr {p2.stderr.decode(errors='replace')[-200:]}", {"kind": "kytea-tool", "case": d}, cls=f"C17:tool:truncated:{p2.returncode}")
+    rej, _ = vlib.validate_trace(ctx, "C17-tool", "Trace_Pair", events)
+    for rid in rej:
+        ctx.violation(f"C17:tool:differs:{rid}", "the model written by convert_kytea_model differs from the library conversion of the same file",
+                      {"kind": "kytea-tool", "id": rid}, cls="C17:tool:differs")
+    ctx.add_part(convert_kytea_model_runs=len(events), rejected=len(rej))
 
 
 def replay(ctx, path):
